@@ -212,9 +212,12 @@ func (p *RegisteredType) TypeCheckRecord(hash *SexpHash) error {
 	if p.UserStructDefn != nil {
 		Q("in RegisteredType.TypeCheckRecord, type checking against '%#v'", p.UserStructDefn)
 
-		var err error
 		for _, key := range hash.KeyOrder {
-			obs, _ := hash.HashGet(nil, key)
+			// key is one of the record's own stored keys
+			obs, err := hash.storedValue(key)
+			if err != nil {
+				return err
+			}
 			err = hash.TypeCheckField(key, obs)
 			if err != nil {
 				return err
